@@ -370,7 +370,7 @@ func (h *HarnessRun) worker(w int, st *SolverStats) {
 }
 
 func newExec(ld *Loaded, h *HarnessRun, solver *Solver) *Exec {
-	ex := &Exec{ld: ld, h: h, tc: NewTermCtx(), solver: solver, globals: map[*ssa.Global]*Cell{}, pkgInit: map[*ssa.Package]bool{}, pkgInitBad: map[*ssa.Package]string{}}
+	ex := &Exec{ld: ld, h: h, tc: NewTermCtx(), solver: solver, globals: map[*ssa.Global]*Cell{}, pkgInit: map[*ssa.Package]bool{}, pkgInitBad: map[*ssa.Package]string{}, implied: map[int]int{}}
 	ex.emptyStr = &StrV{}
 	for i := 0; i < 256; i++ {
 		ex.byteConst[i] = ex.tc.Const(BV(8), uint64(i))
@@ -407,6 +407,11 @@ func (ex *Exec) runPath(it workItem) (end string, msg string) {
 		sl++
 	}
 	ex.syncLen = sl
+	for id, d := range ex.implied {
+		if d > sl {
+			delete(ex.implied, id)
+		}
+	}
 	target := 0
 	if sl > 0 {
 		target = ex.lastLevels[sl-1]
